@@ -8,6 +8,10 @@ NOTE_COMMON = ("Trusted: rustc MIR of the pinned nightly for both arithmetic pro
                "per function / per loop segment / per bounded harness as stated; the step to whole runs is argued in DESIGN.md, not mechanised.")
 
 CLAIMS = {
+ "C01": "Per-transition obligations on the resumable interpreter StmtIterator::next_with_context (every arm from an arbitrary state: statement dispatch, bound evaluated once before any frame operation, loop skipped iff bound <= 0, counter bookkeeping, while re-evaluation, rows passed up unchanged), data rows (<= 3 entries, in order), bits expansion MSB-first for every k <= 64 and every value in both profiles, FramedMap push/pop kernels (bounded).",
+ "C06": "build_indices for 2 signals x 2 header columns with symbolic names (string identities) and all 16 direction combinations; input/expected entry closures (signal of the index, changed flag of the entry's own column, defaults unflagged, X for omitted expected); check_changed_entries (<= 2 entries).",
+ "C17": "Relative to rand's contract (generator uninterpreted, one event per draw): func_random evaluates its bound once, draws once from the context's generator, result in [0,n); reset_random_seed re-creates the generator from the stored seed and with_seed stores the seed it uses; no operand evaluation is skipped (Expr::eval step) and ite is lazy; the interpreter reseeds exactly where resetRandom stands.",
+ "C18": "vars() = FramedMap::flatten of the visible map, unchanged; flatten keeps the innermost binding of each name (<= 3 bindings); maps swapped back after every extraction; loop exit always pops exactly one frame; push/pop kernels. The frame discipline over whole runs is argued from these kernels, not mechanised.",
  "C02": "Trace obligations over the generic MIR of try_new / next / handle_io / the provided write_input and the default-entry closure: exactly one driver call per constructor and per row, of the right kind, with the very input slice of the row; no other call site in the crate (scan of all MIR call sites). Holds for every driver type because the trait methods are uninterpreted.",
  "C03": "Verdict kernels (ExpectedValue::check, OutputValue::check, OutputResultEntry::check / is_checked, failing_outputs filter) for all tags and 64-bit payloads; attribution at closure level and for extract_output_values as a whole (<= 2 entries); into_data_row zip (<= 3 entries); build_output_indices first-match positions for (2,2), (2,1), (1,2) expected/answer entries.",
  "C14": "Virtual arm of the extraction closure (one evaluation against the closure's context, value or Runtime error), swap bracket on every path, set_outputs before extraction, set_outputs rebuilds the map from exactly the answer (<= 2 entries, Z/X included), virtual signals 64 bits wide and unmasked.",
@@ -19,15 +23,11 @@ CLAIMS = {
  "C13": "Driver errors leave try_new / handle_io / the provided write_input at once as IterationError::Driver with the driver's own value; extract_output_values rejects a wrong output count before evaluating anything and attributes a value only after the identity check of the very answer entry it uses (closure level and whole function with <= 2 expected entries).",
 }
 NA = {
- "C01": "not claimed yet in this session (planned: per-transition obligations on StmtIterator::next_with_context)",
- "C06": "not claimed yet in this session (planned: build_indices segments and entry closures)",
  "C09": "not claimed yet in this session (planned: panic-site audit of the parser modules)",
  "C11": "not claimed: the verdict depends on discrete structure only; see DESIGN.md section 4",
  "C12": "not claimed yet in this session (planned: terminator / arity / literal obligations on the parser functions)",
  "C15": "not claimed yet in this session (planned: sortedness of Parser::finish, static gate)",
  "C16": "not claimed yet in this session (planned: load_test*, extraction helpers, dig.rs panic sites)",
- "C17": "not claimed yet in this session (planned: func_random range and draw count, reset_random_seed)",
- "C18": "not claimed: frame discipline over whole runs; see DESIGN.md section 4",
  "C19": "not claimed yet in this session (planned: line bookkeeping kernels)",
  "C20": "not claimed: statement about the logos-generated lexer DFA on arbitrary bytes; see DESIGN.md section 4",
 }
